@@ -129,6 +129,21 @@ def gen_schedules(chk, name, algs, programs, maxrun, maxreload, timeout=1800):
     return parse_scheds(res)
 
 
+def sampled_schedules(chk, name, algs, programs, maxrun, maxreload, rate, focus, timeout=1800):
+    '''BFS over a larger instance, every transition printed with probability 1/rate (uniform over transitions,
+    so deep histories dominate -- unlike random walks); nondeterministic across runs (multi-worker BFS)'''
+    cfg = os.path.join(chk.work, f'{name}.cfg')
+    tlc.write_cfg(cfg, spec='GenSpecFocus' if focus else 'GenSpec', constants=consts(algs, programs, maxrun, maxreload), extra=['VIEW View', f'ACTION_CONSTRAINT EmitS{rate}'])
+    res = tlc.run('Sched_Gen.tla', cfg, workers=core.NPROC, timeout=timeout, out_file=os.path.join(chk.work, f'{name}.out'))
+    if not res.ok:
+        raise core.Machinery(f'generation {name} failed: {res.error or res.violated}')
+    chk.note(f'sampled export {name}: {res.distinct} distinct / {res.generated} generated, {res.wall:.1f}s')
+    chk.mc_runs.append(dict(res.summary(), name=name, module='Sched_Gen.tla', mode=f'transitions sampled 1/{rate}'))
+    chk.states += res.distinct
+    chk.transitions += res.generated
+    return parse_scheds(res)
+
+
 def sim_schedules(chk, name, algs, programs, maxrun, maxreload, num, depth, seed, timeout=600):
     cfg = os.path.join(chk.work, f'{name}.cfg')
     tlc.write_cfg(cfg, spec='GenSpec', constants=consts(algs, programs, maxrun, maxreload), invariants=['SimInv'])
@@ -277,10 +292,13 @@ def run(pid, tier, seed, replay=None):
     total_transitions = len(scheds)
     if not thorough:
         rnd.shuffle(scheds)
-        scheds = scheds[:2500]
-    sim3 = sim_schedules(chk, 'sim3', ALG3, 'Programs3Val', 3, 1, 3000 if thorough else 400, 16, seed)
+        scheds = scheds[:1500]
+    focus = sampled_schedules(chk, 'focus3', ALG3, 'Programs3Focus', 3, 0, 100 if thorough else 500, True)
+    sim3 = sim_schedules(chk, 'sim3', ALG3, 'Programs3Val', 3, 1, 3000, 16, seed) if thorough else []
+    if thorough:
+        focus += sampled_schedules(chk, 'full2', ALG3, 'Programs3Alg', 2, 0, 250, False)
     sim4 = sim_schedules(chk, 'sim4', ALG4, 'Programs4Alg', 3, 1, 3000 if thorough else 400, 18, seed + 1)
-    jobs3 = to_jobs(scheds + sim3)
+    jobs3 = to_jobs(scheds + focus + sim3)
     jobs4 = to_jobs(sim4, start=len(jobs3))
     chk.samples = [{'algs': ALG3, 'events': j['events']} for j in rnd.sample(jobs3, min(3, len(jobs3)))] + [{'algs': ALG4, 'events': j['events']} for j in jobs4[:1]]
     # 3+4
@@ -291,6 +309,7 @@ def run(pid, tier, seed, replay=None):
         transitions_of_gen_instance=total_transitions,
         transitions_replayed=len(scheds),
         sim_behaviours=len(sim3) + len(sim4),
+        sampled_deep_transitions=len(focus),
         distinct_nontrivial=nontrivial(jobs3 + jobs4),
     )
     chk.assumptions = [
